@@ -7,6 +7,7 @@ CONSTANTS
   NSet <- NSetB
   MaxIts <- MaxItsB
   TdMasks <- AllMasks
+  Boxes <- NoBoxes
   InitSel <- InitAll
   SThr <- SThrHalf
   DFree = FALSE
